@@ -396,3 +396,227 @@ func c02IsNegativeValue(c *Ctx, fn *ssa.Function, fRcode *types.Var) ssa.Value {
 	}
 	return found
 }
+
+// c02TrueSource is one way a boolean value built from phis can become true:
+// a constant true fed in over the edge leaving Term, or a non-constant operand
+// Residual fed in over that edge (the value is then true exactly when Residual is).
+type c02TrueSource struct {
+	Term     ssa.Instruction // terminator of the feeding predecessor (nil: the value is not a phi)
+	Residual ssa.Value
+}
+
+func c02TrueSources(v ssa.Value) []c02TrueSource {
+	var out []c02TrueSource
+	seen := map[ssa.Value]bool{}
+	var walk func(v ssa.Value, from *ssa.BasicBlock)
+	walk = func(v ssa.Value, from *ssa.BasicBlock) {
+		var term ssa.Instruction
+		if from != nil && len(from.Instrs) > 0 {
+			term = from.Instrs[len(from.Instrs)-1]
+		}
+		switch x := v.(type) {
+		case *ssa.Const:
+			if x.Value != nil && x.Value.Kind() == constant.Bool && constant.BoolVal(x.Value) {
+				out = append(out, c02TrueSource{Term: term})
+			}
+		case *ssa.Phi:
+			if seen[x] {
+				return
+			}
+			seen[x] = true
+			for i, ed := range x.Edges {
+				walk(ed, x.Block().Preds[i])
+			}
+		default:
+			out = append(out, c02TrueSource{Term: term, Residual: v})
+		}
+	}
+	walk(v, nil)
+	return out
+}
+
+// c02Subst clones e replacing the parameters of fn by the given argument
+// descriptions (receiver = argument 0, as in go/ssa).
+func c02Subst(e *Expr, fn *ssa.Function, args []*Expr) *Expr {
+	if e == nil {
+		return nil
+	}
+	if e.K == EParam {
+		if p, ok := e.V.(*ssa.Parameter); ok && p.Parent() == fn && e.Idx >= 0 && e.Idx < len(args) {
+			return args[e.Idx]
+		}
+	}
+	n := *e
+	n.X = c02Subst(e.X, fn, args)
+	n.Y = c02Subst(e.Y, fn, args)
+	if len(e.Args) > 0 {
+		n.Args = make([]*Expr, len(e.Args))
+		for i, a := range e.Args {
+			n.Args[i] = c02Subst(a, fn, args)
+		}
+	}
+	return &n
+}
+
+// c02OriginsThroughHelpers is Origins that additionally looks through calls to
+// functions of the analysed module for which stop is false: such a helper is
+// replaced by what it returns, with its parameters substituted by the call's
+// arguments.  A value extracted into (or inlined from) a small helper thereby
+// has the same origins as before the refactoring.
+func c02OriginsThroughHelpers(e *Expr, stop Pat, depth int) []*Expr {
+	var out []*Expr
+	for _, l := range Origins(e, nil) {
+		ls := strip(l)
+		idx := 0
+		call := ls
+		if ls != nil && ls.K == EExtract {
+			idx = ls.Idx
+			call = strip(ls.X)
+		}
+		if depth >= 3 || call == nil || call.K != ECall || call.SFn == nil || len(call.SFn.Blocks) == 0 || stop(call) {
+			out = append(out, l)
+			continue
+		}
+		pk := fnPkg(call.SFn)
+		if pk == nil || !(pk.Path() == modPath || strings.HasPrefix(pk.Path(), modPath+"/")) {
+			out = append(out, l)
+			continue
+		}
+		n := 0
+		for _, b := range call.SFn.Blocks {
+			for _, in := range b.Instrs {
+				r, ok := in.(*ssa.Return)
+				if !ok || idx >= len(r.Results) {
+					continue
+				}
+				n++
+				out = append(out, c02OriginsThroughHelpers(c02Subst(Desc(r.Results[idx]), call.SFn, call.Args), stop, depth+1)...)
+			}
+		}
+		if n == 0 {
+			out = append(out, l)
+		}
+	}
+	return out
+}
+
+// c02Either: a barrier edge that is any of the given edge barriers (the same
+// guard spelled inline or through a named boolean).
+func c02Either(name string, bs ...Barrier) Barrier {
+	return Barrier{Name: name, Edge: func(cnd *Expr) (bool, int) {
+		for _, b := range bs {
+			if b.Edge == nil {
+				continue
+			}
+			if m, which := b.Edge(cnd); m {
+				return true, which
+			}
+		}
+		return false, 0
+	}}
+}
+
+// ---------------------------------------------------------------------------
+// Guards through named booleans (round 2).
+//
+// `if !a && !b { publish }`, `x := a || b; if !x { publish }` and
+// `x := a || b; y := c || d; if !x && !y { publish }` protect the publish by
+// the same four atoms, but only in the first spelling is every atom a branch
+// of its own: in the others the last operand of each || is a VALUE flowing
+// into a phi, and the phi is tested far from where it was built.  c02Deep
+// lifts an edge barrier over that: the edge "v is true/false" of a branch is
+// the barrier's edge when v being true/false IMPLIES the barrier's own edge —
+//   v = !u                  : u false/true implies it;
+//   v = phi (&&/|| join)    : every incoming edge that can deliver that truth
+//                             value implies it, where an edge delivers either a
+//                             constant (then the branch decisions that lead to
+//                             the feeding block — its single-predecessor chain —
+//                             are the facts) or an operand (its own truth, plus
+//                             the same chain facts);
+//   otherwise               : v's own branch edge is the barrier's edge.
+
+func c02Implies(v ssa.Value, truth bool, leaf EdgeSpec, depth int) bool {
+	if v == nil || depth > 12 {
+		return false
+	}
+	if m, which := leaf(Desc(v)); m && (which == 0) == truth {
+		return true
+	}
+	switch x := v.(type) {
+	case *ssa.UnOp:
+		if x.Op == token.NOT {
+			return c02Implies(x.X, !truth, leaf, depth+1)
+		}
+	case *ssa.Phi:
+		if bt, ok := x.Type().Underlying().(*types.Basic); !ok || bt.Info()&types.IsBoolean == 0 {
+			return false
+		}
+		any := false
+		for i, ed := range x.Edges {
+			if k, ok := ed.(*ssa.Const); ok {
+				if k.Value == nil || k.Value.Kind() != constant.Bool || constant.BoolVal(k.Value) != truth {
+					continue // this edge cannot deliver the truth value
+				}
+			}
+			any = true
+			if _, isConst := ed.(*ssa.Const); !isConst && c02Implies(ed, truth, leaf, depth+1) {
+				continue
+			}
+			if c02ChainImplies(x.Block().Preds[i], x.Block(), leaf, depth+1) {
+				continue
+			}
+			return false
+		}
+		return any
+	}
+	return false
+}
+
+// c02ChainImplies: do the branch decisions that necessarily precede the edge
+// from→to (from's own terminator, then up the chain of single predecessors)
+// include the barrier's edge?
+func c02ChainImplies(from, to *ssa.BasicBlock, leaf EdgeSpec, depth int) bool {
+	for steps := 0; steps < 16 && from != nil; steps++ {
+		if len(from.Instrs) > 0 {
+			if iff, ok := from.Instrs[len(from.Instrs)-1].(*ssa.If); ok {
+				k := -1
+				for i, s := range from.Succs {
+					if s == to {
+						k = i
+					}
+				}
+				if k >= 0 && from.Succs[0] != from.Succs[1] && c02Implies(iff.Cond, k == 0, leaf, depth+1) {
+					return true
+				}
+			}
+		}
+		if len(from.Preds) != 1 {
+			return false
+		}
+		to, from = from, from.Preds[0]
+	}
+	return false
+}
+
+// c02Deep lifts an edge barrier over negations and named booleans.
+func c02Deep(b Barrier) Barrier {
+	if b.Edge == nil {
+		return b
+	}
+	leaf := b.Edge
+	return Barrier{Name: b.Name, Instr: b.Instr, Edge: func(cnd *Expr) (bool, int) {
+		if m, which := leaf(cnd); m {
+			return m, which
+		}
+		if cnd == nil || cnd.V == nil {
+			return false, 0
+		}
+		if c02Implies(cnd.V, true, leaf, 0) {
+			return true, 0
+		}
+		if c02Implies(cnd.V, false, leaf, 0) {
+			return true, 1
+		}
+		return false, 0
+	}}
+}
